@@ -5,6 +5,7 @@
 import O1722.Spec.Wire
 import O1722.Spec.Formats
 import O1722.Model.Utils
+import O1722.Model.Can
 
 namespace O1722.Driver
 open O1722 O1722.Spec
@@ -179,6 +180,43 @@ def step (st : State) (line : String) : State × String :=
       if id == "NULL" || s.fields.length ≤ fid then (st, if path == "l" then "r -22" else "r 0")
       else (st, "bad-op")
     | _, _ => (st, "bad-op")
+  -- ACF-CAN builders: the hand MODEL of Can.c / CanBrief.c
+  | ["can_create", id, off, fmt, fid, variant, hex] =>
+    match st.get id, nat? off, findFormat fmt, nat? fid, nat? variant, parseHex hex with
+    | some a, some off, some s, some fid, some variant, some pl =>
+      let r := canCreate s (memOf a) off (fid % 2 ^ 32) (pl.toList.map (fun b => Fin.ofNat 256 b.toNat)) variant
+      (st.put id (arrOf r.1 a.size), if fmt == "Can" then "r -" else s!"r {r.2}")
+    | _, _, _, _, _, _ => (st, "bad-op")
+  | ["can_setpayload", id, off, hex] =>
+    match st.get id, nat? off, parseHex hex with
+    | some a, some off, some pl =>
+      (st.put id (arrOf (canSetPayload Spec.can (memOf a) off (pl.toList.map (fun b => Fin.ofNat 256 b.toNat))) a.size), "")
+    | _, _, _ => (st, "bad-op")
+  | ["can_finalize", id, off, fmt, len] =>
+    match st.get id, nat? off, findFormat fmt, nat? len with
+    | some a, some off, some s, some len =>
+      let r := canFinalize s (memOf a) off (len % 2 ^ 16)
+      (st.put id (arrOf r.1 a.size), if fmt == "Can" then "r -" else s!"r {r.2}")
+    | _, _, _, _ => (st, "bad-op")
+  | ["can_len", id, off] =>
+    match st.get id, nat? off with
+    | some a, some off => (st, s!"v {canPayloadLength Spec.can (memOf a) off}")
+    | _, _ => (st, "bad-op")
+  -- byte-order helpers on a little-endian host (the host the harness runs on)
+  | ["bo", h, x] =>
+    match nat? x with
+    | some x =>
+      let e := Endian.little
+      let bits := if h.endsWith "16" then 16 else if h.endsWith "32" then 32 else 64
+      let x := x % 2 ^ bits
+      let r := if h.startsWith "Avtp_Bswap" then
+                 (if bits == 16 then bswap16 x else if bits == 32 then bswap32 x else bswap64 x)
+               else if h.startsWith "Avtp_CpuToBe" || h.startsWith "Avtp_BeToCpu" then
+                 (if bits == 16 then beCpu16 e x else if bits == 32 then beCpu32 e x else beCpu64 e x)
+               else
+                 (if bits == 16 then leCpu16 e x else if bits == 32 then leCpu32 e x else leCpu64 e x)
+      (st, s!"v {r} " ++ toHex ((bytesLE (bits / 8) r).toArray.map (fun b => UInt8.ofNat b.val)))
+    | none => (st, "bad-op")
   | ["facts", fmt] =>
     match findFormat fmt with
     | some s => (st, s!"f {s.headerLen} {s.headerLen} {s.headerLen}")
